@@ -69,11 +69,13 @@ PROPS["C17"] = {
 
 PROPS["C16"] = {
     "id": "C16",
-    "lean_modules": ["JT.Props.C16"],
-    "functional_ops": ["miss"],
+    "lean_modules": ["JT.Props.C16", "JT.Props.C15"],
+    "functional_ops": ["miss", "att"],
+    "confirm_reruns": True,
     "rule": ("file sizes 0..~330000 (boundaries 1,2,255,256,65535,65536,2^20), the file cut at random points into up to 12 (10%: up to 600) pieces of which 0/30/50/80/100% are kept as received chunks, "
              "in shuffled order (gaps at start/middle/end, adjacent chunks, single-byte gaps, > 255 gaps); `miss` = Package.StatisticalMissSegments(), `rep` = the same list driven through T0x1212.ReplyBody -> P0x9212 and parsed back; "
-             "10%: out-of-quantifier inputs (zero-length, overlapping, out-of-file chunks, offsets near 2^32, inconsistent counter) compared with the model only. non-trivial = class other than out-of-quantifier."),
+             "10%: out-of-quantifier inputs (zero-length, overlapping, out-of-file chunks, offsets near 2^32, inconsistent counter) compared with the model only; `att` = the same situations over a socket against the attachment server "
+             "(files up to 300000 bytes, holes of more than 64 KiB, up to three rounds of 0x1212 -> partial resend -> 0x1212, random TCP segmentation), the 0x9212 frames compared with the Lean session model and the brute-force complement. non-trivial = class other than out-of-quantifier."),
     "technique": "Lean 4 proof (sorted fold = exact complement, accounting identity) about a model of StatisticalMissSegments + differential correspondence + brute-force complement oracle",
     "level_text": ("Machine-checked Lean 4 theorems for every file size < 2^32 and every set of non-empty, pairwise disjoint in-file chunks in any order: a byte is inside a reported range iff no chunk covers it; "
                    "reported ranges are ascending, non-empty, inside the file and separated by at least one received byte (maximal); the report is empty iff everything was received; received + reported bytes = file size, "
